@@ -81,6 +81,26 @@ def peek(data):
 
 
 # ------------------------------------------------------------ observed protocol
+def rekey_initial(data, new_dcid):
+    """First (Initial) packet of a client datagram, re-protected with the Initial keys of `new_dcid`
+    (RFC 9001 5.2: those keys are public) - token, source CID, packet number and payload unchanged."""
+    from vlib import refquic
+
+    pkts, _ = refquic.split_datagram(bytes(data), 8)
+    if not pkts or pkts[0].type != "initial":
+        return None
+    p = pkts[0]
+    cs, _ss = refquic.initial_secrets(p.version, p.dcid)
+    res = refquic.unprotect(bytes(data), p, refquic.Keys("aes128", cs, p.version), 0)
+    if res is None:
+        return None
+    _h, pn, pn_len, pt, _k = res
+    cs2, _ = refquic.initial_secrets(p.version, new_dcid)
+    out = refquic.build_long(p.version, "initial", new_dcid, p.scid, pn, pn_len, pt,
+                             refquic.Keys("aes128", cs2, p.version), token=p.token or b"")
+    return out + bytes(max(0, 1200 - len(out)))
+
+
 class ObsProtocol(QuicConnectionProtocol):
     """QuicConnectionProtocol with the documented `quic_event_received` override used as
     the observation point (this is how applications subclass it)."""
@@ -144,6 +164,10 @@ def scenarios():
                           ("eof", 1), ("write", 0, b"tail"), ("eof", 0), ("read2", 0, 1)])])
     add("ping2", [client([("ping2",), ("ping",)])])
     add("cid", [client([("ping",), ("change_cid",), ("ping",)] + ECHO)])
+    # several rotations in a row (each announces a retirement in a datagram of its own) and more later: with one
+    # of those datagrams lost the server sees RETIRE_CONNECTION_ID frames out of order
+    add("cid_burst", [client([("ping",), ("change_cid",), ("change_cid",), ("change_cid",), ("ping",),
+                              ("change_cid",), ("ping",), ("change_cid",), ("ping",)] + ECHO)])
     add("cid_early", [client([("change_cid",), ("ping",), ("change_cid",)] + ECHO)])
     # the application's first ping travels with the client's Finished (wait_connected=False)
     add("nowait_cid", [client([("ping",), ("change_cid",), ("ping",)] + ECHO, wait=False)])
@@ -600,6 +624,13 @@ class World:
                     lab = "%s_from_X%d" % (label, i)
                     if lab not in have:
                         self.net.spoofable.append([lab, d.data, a, SADDR, 1])
+                if token and "initial_token_rekeyed_from_X0" not in have:
+                    # what an observer of the path can build: the same ClientHello and the same token in an
+                    # Initial packet protected for ANOTHER destination connection ID (one the server does
+                    # not route yet), sent from the observer's own address
+                    rk = rekey_initial(d.data, b"\xdd" * 8)
+                    if rk is not None:
+                        self.net.spoofable.append(["initial_token_rekeyed_from_X0", rk, SPOOFS[0], SADDR, 1])
 
     def on_dispatch(self, tr, d):
         if tr is not self.server_tr:
